@@ -39,9 +39,14 @@ def run_one(meta_path):
         ok = True
         for pid in ([meta["property"]] if isinstance(meta["property"], str) else meta["property"]):
             r = subprocess.run([os.path.join(HERE, "check"), pid, "--tier", meta.get("tier", "quick")], capture_output=True, text=True, env=env)
-            hit = r.returncode == 1 and meta["expect"] in r.stdout
+            if meta.get("benign"):
+                hit = r.returncode == 0
+            else:
+                hit = r.returncode == 1 and meta["expect"] in r.stdout
             ok = ok and hit
             out.append("%s exit=%d %s" % (pid, r.returncode, "" if hit else r.stdout[-600:]))
+        if meta.get("benign"):
+            return name, "CAUGHT" if ok else "FALSE-ALARM", " | ".join(out)
         return name, "CAUGHT" if ok else "MISSED", " | ".join(out)
     finally:
         shutil.rmtree(tmp, ignore_errors=True)
